@@ -27,6 +27,8 @@ def run_shards(prop, specs, timeout, jobs=NCPU):
     tmp = tempfile.mkdtemp(prefix=f'verif_{prop}_')
     env = dict(os.environ)
     env['PYTHONPYCACHEPREFIX'] = os.path.join(tmp, 'pyc')
+    if specs and specs[0].get('tier'):
+        env['VERIF_SHARD_TIER'] = specs[0]['tier']
     pending = list(enumerate(specs))
     running = {}
     try:
